@@ -319,6 +319,9 @@ func (r *FnRun) valEq(a, b Val) Term {
 		if y, ok := b.(Term); ok {
 			return Eq(x, y)
 		}
+		if pb, ok := b.(PtrVal); ok && isInterior(pb) {
+			return r.valEq(b, a)
+		}
 		return Eq(x, r.scalarOf(b))
 	case *StructVal:
 		y, ok := b.(*StructVal)
@@ -357,6 +360,28 @@ func (r *FnRun) valEq(a, b Val) Term {
 					return Eq(r.scalarOf(ip), r.scalarOf(pv))
 				}
 			}
+		}
+		// a pointer into an object (&x.f with f a struct held by value) is
+		// never nil and never equal to a separately allocated object
+		if pa, ok := a.(PtrVal); ok && isInterior(pa) {
+			switch y := b.(type) {
+			case PtrVal:
+				if isInterior(y) {
+					if pa.Root == y.Root && pa.Path == y.Path {
+						return Eq(pa.Ref, y.Ref)
+					}
+					return TFalse
+				}
+				if y.Kind == pkHeap {
+					return TFalse
+				}
+			case Term:
+				if y.S == "0" {
+					return TFalse
+				}
+			}
+		} else if pb, ok := b.(PtrVal); ok && isInterior(pb) {
+			return r.valEq(b, a)
 		}
 		return Eq(r.scalarOf(a), r.scalarOf(b))
 	}
